@@ -3,9 +3,10 @@ From Verif Require Import Base.Run C01.Model C01.Spec.
 Import ListNotations.
 
 (* one case = one Saml2Client (one configuration, reaching it in one way: Model.client) consuming a
-   sequence of messages (each a Response with a LIST of assertions, round 5); for every message the identity
+   sequence of messages (each a Response with a LIST of assertions, round 5, its EncryptedAssertions made for one
+   certificate and consumed with one outstanding_certs argument, round 6); for every message the identity
    (or not) observed on the real implementation *)
-Definition case := (client * list (mmsg * bool))%type.
+Definition case := (client * list (xmsg * bool))%type.
 
 Definition cfg (wr wa wor only : optv) : config := {| c_wr := wr; c_wa := wa; c_wor := wor; c_only := only |}.
 Definition sg (k : key) (i : kinfo) (c : bool) : option sgn := Some {| signer := k; ki := i; corrupt := c; shp := std |}.
@@ -13,16 +14,20 @@ Definition sg (k : key) (i : kinfo) (c : bool) : option sgn := Some {| signer :=
 Definition sgx (k : key) (i : kinfo) (c : bool) (rf : list rtarget) (ca : calg) (t : list talg) (o : bool) (x : extra) : option sgn :=
   Some {| signer := k; ki := i; corrupt := c; shp := {| refs := rf; c14n := ca; trs := t; obj := o; xsig := x |} |}.
 (* a Response with one assertion (the messages of rounds 1-4) *)
-Definition st (rw aw : who) (r a : option sgn) (e : bool) (b : bind) (obs : bool) : mmsg * bool :=
-  (embed {| r_who := rw; a_who := aw; m_rs := r; m_as := a; m_enc := e; m_bind := b |}, obs).
+Definition st (rw aw : who) (r a : option sgn) (e : bool) (b : bind) (obs : bool) : xmsg * bool :=
+  (plain_msg (embed {| r_who := rw; a_who := aw; m_rs := r; m_as := a; m_enc := e; m_bind := b |}), obs).
 (* round 5: a Response with the given assertions (issuer, signature, sent encrypted), in document order *)
 Definition asr (w : who) (s : option sgn) (e : bool) : asn := {| x_who := w; x_sig := s; x_enc := e |}.
-Definition stm (rw : who) (r : option sgn) (l : list asn) (b : bind) (obs : bool) : mmsg * bool :=
-  ({| mm_rwho := rw; mm_rs := r; mm_asl := l; mm_bind := b |}, obs).
+Definition stm (rw : who) (r : option sgn) (l : list asn) (b : bind) (obs : bool) : xmsg * bool :=
+  (plain_msg {| mm_rwho := rw; mm_rs := r; mm_asl := l; mm_bind := b |}, obs).
+(* round 6: the same message with its EncryptedAssertions made for the certificate of `r`, consumed with
+   outstanding_certs = o (st / stm: the configured key, no outstanding_certs) *)
+Definition stk (r : dkey) (o : ocerts) (p : xmsg * bool) : xmsg * bool :=
+  ({| xm := xm (fst p); x_rcpt := r; x_oc := o |}, snd p).
 (* the clients of rounds 1-3: an SPConfig loaded from a dict and handed over as config= *)
-Definition mk (c : config) (steps : list (mmsg * bool)) : case := (client_of c, steps).
+Definition mk (c : config) (steps : list (xmsg * bool)) : case := (client_of c, steps).
 (* round 4: delivery, assigned context, second service section, the three options as written *)
-Definition mkc (d : deliver) (a : option octx) (p : bool) (wr wa wor : written) (only : optv) (steps : list (mmsg * bool)) : case :=
+Definition mkc (d : deliver) (a : option octx) (p : bool) (wr wa wor : written) (only : optv) (steps : list (xmsg * bool)) : case :=
   ({| k_deliver := d; k_assigned := a; k_proxy := p; k_wr := wr; k_wa := wa; k_wor := wor; k_only := only |}, steps).
 
 (* the four signature states of the single-message truth table, as in round 1 *)
@@ -34,16 +39,18 @@ Definition sUntrusted := sgn_of Untrusted.
 Definition bool_list_eqb (a b : list bool) : bool :=
   Nat.eqb (length a) (length b) && forallb (fun p => Bool.eqb (fst p) (snd p)) (combine a b).
 
-Definition agrees (c : case) : bool := bool_list_eqb (client_run_mm (fst c) (map fst (snd c))) (map snd (snd c)).
-Definition holds (c : case) : bool := spec_client_mm_b (fst c) (map fst (snd c)) (map snd (snd c)).
+Definition agrees (c : case) : bool := bool_list_eqb (client_run_x (fst c) (map fst (snd c))) (map snd (snd c)).
+Definition holds (c : case) : bool := spec_client_x_b (fst c) (map fst (snd c)) (map snd (snd c)).
 Definition cls (c : case) : nat := 0.
 Definition run := run_cases agrees holds cls.
-(* per message: (model, observed, satisfied, otherwise valid, state of the Response signature, of each assertion's) *)
+(* per message: (model, observed, satisfied by what is used, satisfied, otherwise valid, the receiver holds the key,
+   state of the Response signature, of each assertion's) *)
 Definition explain (c : case) :=
   (current_ctx (fst c), read_config (fst c), meant_config (fst c),
    match read_config (fst c), meant_config (fst c) with
    | Some rc, Some mc =>
-       map (fun p => (parse_mmsg rc (fst p), snd p, satisfied_mm_b mc (fst p),
-                      otherwise_valid_mm_b (fst p), rr_state mc (fst p), map (x_state mc) (mm_asl (fst p)))) (snd c)
-   | _, _ => map (fun p => (false, snd p, false, false, Absent, @nil sigst)) (snd c)    (* no client: no identity *)
+       map (fun p => (parse_xmsg rc (fst p), snd p, satisfied_mm_b mc (used (fst p)), satisfied_mm_b mc (xm (fst p)),
+                      otherwise_valid_mm_b (xm (fst p)), can_read (fst p), rr_state mc (xm (fst p)),
+                      map (x_state mc) (mm_asl (xm (fst p))))) (snd c)
+   | _, _ => map (fun p => (false, snd p, false, false, false, false, Absent, @nil sigst)) (snd c)    (* no client: no identity *)
    end).
